@@ -3,7 +3,7 @@
     sni_proxy.go, proxy/ws_handler.go).
     This file contains only statements, [exact], and [Print Assumptions]. *)
 From Coq Require Import String List NArith Bool.
-From Fabio Require Import Lib.Outcome Lib.Bytes Model.ClientHello Model.BufioR Model.Tunnel Model.WsHijack Proofs.Tunnel Proofs.WsHijack.
+From Fabio Require Import Lib.Outcome Lib.Bytes Model.ClientHello Model.BufioR Model.Tunnel Model.WsHijack Model.ConnDeadline Proofs.Tunnel Proofs.WsHijack Proofs.ConnDeadline.
 Import ListNotations.
 
 (* The copy loop: for every segmentation of the source (every chunking of the reads) the
@@ -520,3 +520,77 @@ Theorem C09_ws_early_scenario_nonvacuous :
       (symseq 0 1024 ++ [1; 2]%N) (wit_reply ++ [7; 8]%N) = false.
 Proof. exact ws_early_scenario_nonvacuous. Qed.
 Print Assumptions C09_ws_early_scenario_nonvacuous.
+
+(* ---------- round 8: the listener's read / write timeouts on a tunnelled connection ----------
+   (proxy/tcp/server.go, type conn: Read arms the read deadline, Write the write deadline of the
+   accepted connection, each before every operation; Model/ConnDeadline.v.)  A copier whose
+   operation is cut by a deadline ends the tunnel, so the property needs: an operation is cut only
+   when IT had to wait for the whole timeout of its direction.  [op_cut] is the specification: a
+   predicate on the single operation, without state or history. *)
+Theorem C09_timeouts_cut_only_the_silent : forall rt wt ops,
+  wrun rt wt fresh_conn ops = map (op_cut rt wt) ops.
+Proof. exact wrun_meets_spec. Qed.
+Print Assumptions C09_timeouts_cut_only_the_silent.
+
+(* the fate of an operation does not depend on what came before it on the connection: how long
+   it has lived, how many operations there were, what the other direction did in between *)
+Theorem C09_timeouts_history_independent : forall rt wt pre1 pre2 o,
+  last (wrun rt wt fresh_conn (pre1 ++ [o])) false = last (wrun rt wt fresh_conn (pre2 ++ [o])) false.
+Proof. exact wrun_history_independent. Qed.
+Print Assumptions C09_timeouts_history_independent.
+
+(* a live tunnel is never cut: if no single operation waits as long as the timeout of its
+   direction, none is cut - every number of operations, every interleaving of the two copiers,
+   every combination of rt and wt, however far the conversation outlives them *)
+Theorem C09_live_tunnel_never_cut_by_timeouts : forall rt wt ops,
+  forallb (op_live rt wt) ops = true ->
+  existsb (fun b => b) (wrun rt wt fresh_conn ops) = false.
+Proof. exact live_tunnel_never_cut. Qed.
+Print Assumptions C09_live_tunnel_never_cut_by_timeouts.
+
+(* the timeouts are not switched off: a peer silent for the whole timeout is cut *)
+Theorem C09_silent_peer_is_cut : forall rt wt pre o,
+  (0 < timeout_of rt wt (w_kind o))%N -> (w_now o + timeout_of rt wt (w_kind o) <= w_avail o)%N ->
+  last (wrun rt wt fresh_conn (pre ++ [o])) false = true.
+Proof. exact silent_peer_is_cut. Qed.
+Print Assumptions C09_silent_peer_is_cut.
+
+(* the scripted conversation of the correspondence run (the proxy writes the upstream's message
+   to the client just before it reads the client's answer), for every number of rounds *)
+Theorem C09_conversation_never_cut : forall rt wt rounds t gap,
+  (rt = 0 \/ gap < rt)%N ->
+  existsb (fun b => b) (wrun rt wt fresh_conn (conversation rounds t gap)) = false.
+Proof. exact conversation_never_cut. Qed.
+Print Assumptions C09_conversation_never_cut.
+
+Theorem C09_conversation_nonvacuous :
+  length (conversation 12 0 150) = 24%nat /\
+  forallb (op_live 800 800) (conversation 12 0 150) = true /\
+  wrun 800 800 fresh_conn (conversation 12 0 150) = repeat false 24 /\
+  wrun 800 800 fresh_conn (conversation 2 0 900) = [true; false; true; false].
+Proof. exact conversation_nonvacuous. Qed.
+Print Assumptions C09_conversation_nonvacuous.
+
+(* what the specification rejects: a wrapper with ONE "last armed" stamp for both deadlines (not
+   the code of /repo) cuts a Read of this live conversation in the middle - with both options
+   set, not with one of them *)
+Theorem C09_shared_deadline_stamp_refuted :
+  exists ops, forallb (op_live 800 800) ops = true /\
+    existsb (fun b => b) (wrun 800 800 fresh_conn ops) = false /\
+    existsb (fun b => b) (wrun_shared_stamp 800 800 {| s_c := fresh_conn; s_armed := None |} ops) = true /\
+    existsb (fun b => b) (wrun_shared_stamp 800 0 {| s_c := fresh_conn; s_armed := None |} ops) = false.
+Proof. exact shared_stamp_refuted. Qed.
+Print Assumptions C09_shared_deadline_stamp_refuted.
+
+(* the link for the deadline log of the correspondence run (case CDeadlines): a log the model
+   reproduces satisfies the specification evaluated on the observables alone *)
+Theorem C09_deadline_log_meets_spec : forall rt wt log c,
+  dl_agrees rt wt c log = true -> dl_spec rt wt log = true.
+Proof. exact dl_agrees_meets_spec. Qed.
+Print Assumptions C09_deadline_log_meets_spec.
+
+Theorem C09_deadline_log_nonvacuous :
+  dl_agrees 800 800 fresh_conn wit_log_ok = true /\ dl_spec 800 800 wit_log_ok = true /\
+  dl_agrees 800 800 fresh_conn wit_log_stale = false /\ dl_spec 800 800 wit_log_stale = false.
+Proof. exact dl_log_nonvacuous. Qed.
+Print Assumptions C09_deadline_log_nonvacuous.
